@@ -279,7 +279,7 @@ inline ContentPtr build(const Sx& x) {
     ContentPtr c = build(x[3]);
     util::Parameters ps = c->parameters();
     if (!x[1].is("none")) ps["__array__"] = quoted(x[1].a);
-    if (!x[2].is("none")) ps["__record__"] = quoted(x[2].a);
+    if (!x[2].is("none")) ps["__record__"] = quoted(x[2].is("%empty") ? std::string("") : x[2].a);
     c->setparameters(ps);
     return c;
   }
@@ -373,6 +373,7 @@ inline std::string dump(const ContentPtr& c) {
   if (ia != ps.end() && ia->second != "null") arr = unquote(ia->second);
   auto ir = ps.find("__record__");
   if (ir != ps.end() && ir->second != "null") rec = unquote(ir->second);
+  if (rec.empty()) rec = "%empty";       // a record named by the empty string
   if (arr == "none" && rec == "none") return raw;
   return "(par " + arr + " " + rec + " " + raw + ")";
 }
